@@ -51,12 +51,78 @@ fn numerals(line: &str) -> Vec<i64> {
     out
 }
 
+/// a string constant made of letters, digits and blanks only (any script) needs no escaping in any
+/// sensible concrete syntax: the listing must contain it verbatim (the listing is made from what the
+/// LOADER produced, `p` from the independent decoder - a loader that damages text shows here)
+fn plain_strings_shown(ctx: &mut Ctx, origin: &str, p: &Prog, listing: &str) {
+    for (i, c) in p.consts.iter().enumerate() {
+        if let Const::Str(t) = c {
+            if t.is_empty() || !t.chars().all(|ch| ch.is_alphanumeric() || ch == ' ') { continue }
+            ctx.count("plain_strings_looked_up", 1);
+            if !listing.contains(t.as_str()) {
+                ctx.violation("listing/string-constant-not-shown", "a string constant of letters and digits does not appear verbatim in the listing",
+                    json!({"origin": origin, "constant_index": i, "constant": t.chars().take(200).collect::<String>(), "constant_bytes": t.len(),
+                           "listing": listing.chars().take(600).collect::<String>(), "bytes": codec::write(p).len(), "bytes_hex": codec::hex(&codec::write(p)[..codec::write(p).len().min(400)])}));
+            }
+        }
+    }
+}
+
+/// maximal runs of decimal digits of a line, in order
+fn decimals(line: &str) -> Vec<i64> {
+    let mut out = vec![]; let mut cur = String::new();
+    for ch in line.chars().chain(std::iter::once(' ')) {
+        if ch.is_ascii_digit() { cur.push(ch) } else if !cur.is_empty() { if let Ok(v) = cur.parse::<i64>() { out.push(v) } cur.clear() }
+    }
+    out
+}
+
+/// the line that describes method constant #i is the one whose numerals begin with (i, name index,
+/// arity, locals) - the header fields in file order; if no line does (another concrete syntax), the
+/// oracle below stays silent and counts that
+fn method_line<'a>(listing: &'a str, i: usize, name: u16, arity: u8, locals: u16) -> Option<&'a str> {
+    let want = [i as i64, name as i64, arity as i64, locals as i64];
+    let mut found = None;
+    for l in listing.lines() {
+        let n = decimals(l);
+        if n.len() >= 4 && n[..4] == want { if found.is_some() { return None } found = Some(l) }
+    }
+    found
+}
+
+/// a method's own line must change when one instruction is appended to it (the line shows how many
+/// instructions the method has - for an empty method too)
+fn method_extents_shown(ctx: &mut Ctx, origin: &str, p: &Prog, listing: &str) {
+    for (i, c) in p.consts.iter().enumerate() {
+        if let Const::Method { name, arity, locals, code } = c {
+            if code.len() > 8 { continue }
+            let mut q = p.clone();
+            if let Const::Method { code: c2, .. } = &mut q.consts[i] { c2.push(codec::Ins::Drop) }
+            if !bc::loadable(&q) { continue }
+            let l2 = match listing_of(&q) { Some(l) => l, None => continue };
+            ctx.count("listings", 1);
+            match (method_line(listing, i, *name, *arity, *locals), method_line(&l2, i, *name, *arity, *locals)) {
+                (Some(a), Some(b)) => {
+                    ctx.count("method_lines_compared", 1);
+                    if a == b {
+                        ctx.violation("listing/method-extent-not-shown", "the line describing a method is the same with n and with n + 1 instructions",
+                            json!({"origin": origin, "constant_index": i, "instructions": code.len(), "line": a, "bytes_hex": codec::hex(&codec::write(p)), "other_bytes_hex": codec::hex(&codec::write(&q))}));
+                    }
+                }
+                _ => ctx.count("method_line_not_identified", 1),
+            }
+        }
+    }
+}
+
 pub fn neighbourhood(ctx: &mut Ctx, origin: &str, p: &Prog) {
     if has_line_break(p) || !bc::loadable(p) { ctx.count("skipped_line_break_or_unloadable", 1); return }
     let base = match listing_of(p) { Some(l) => l, None => { ctx.count("base_not_listable", 1); return } };
     ctx.count("programs", 1);
     ctx.count("listings", 1);
     ctx.nontrivial(base.as_bytes());
+    plain_strings_shown(ctx, origin, p, &base);
+    method_extents_shown(ctx, origin, p, &base);
     let mut seen: HashMap<u64, usize> = HashMap::new();
     let ns = bc::neighbours(p);
     let base_lines: Vec<&str> = base.lines().collect();
@@ -119,6 +185,18 @@ fn pool_size_sweep(ctx: &mut Ctx) {
         ctx.count("programs", 1);
         ctx.nontrivial(&n.to_le_bytes());
         cli_binding(ctx, &p);
+    }
+    // globals tables and class member tables at the refill boundary
+    for kind in 1..=2usize {
+        for n in (300..=560usize).step_by(if ctx.quick() { 2 } else { 1 }) {
+            if ctx.take().is_none() { continue }
+            let (src, _) = super::bcprops::sweep_family(kind, n);
+            let bytes = match pipeline::compile_source(&src) { Ok(b) => b, Err(_) => continue };
+            let p = match codec::read(&bytes) { Ok(p) => p, Err(_) => continue };
+            ctx.count("programs", 1);
+            ctx.nontrivial(&[kind as u8, (n % 256) as u8, (n / 256) as u8]);
+            cli_binding(ctx, &p);
+        }
     }
 }
 
